@@ -73,6 +73,11 @@ def make_domain(rng, n, kind):
         A = np.vstack([np.eye(n), -np.eye(n)])
         b = np.array([1.0] * n + [2.0] * n)
         K = [('+', 2 * n)]
+    elif kind == 'negbox':
+        # [-1, -1/2]^n : a box inside the negative orthant
+        A = np.vstack([np.eye(n), -np.eye(n)])
+        b = np.array([1.0] * n + [-0.5] * n)
+        K = [('+', 2 * n)]
     elif kind == 'halfspace':
         A = np.array([[float(rng.choice([1, -1, 2])) for _ in range(n)]])
         b = np.array([float(rng.choice([0, 1, 3]))])
@@ -107,14 +112,15 @@ def make_domain(rng, n, kind):
         b = np.array([float(rng.choice([0, -1]))] + [1.0] * n + [2.0] * n)
         K = [('0', 1), ('+', 2 * n)]
     elif kind == 'mixed':
-        # x0 >= -1 ; x0 - x1 = 0 (trivial row when n = 1) ; |x| <= 2
+        # x0 >= -1 ; x0 - x1 = 0 (x0 = -1/2 when n = 1) ; |x| <= 2
         r1 = np.zeros((1, n))
         r1[0, 0] = 1.0
         r2 = np.zeros((1, n))
+        r2[0, 0] = 1.0
         if n >= 2:
-            r2[0, 0], r2[0, 1] = 1.0, -1.0
+            r2[0, 1] = -1.0
         A = np.vstack([r1, r2, np.zeros((1, n)), np.eye(n)])
-        b = np.array([1.0, 0.0, 2.0] + [0.0] * n)
+        b = np.array([1.0, 0.0 if n >= 2 else 0.5, 2.0] + [0.0] * n)
         K = [('+', 1), ('0', 1), ('S', n + 1)]
     else:
         raise ValueError(kind)
@@ -139,6 +145,15 @@ def gen_alpha(rng, m, n, nonneg=False):
             rows.append(r)
     if nonneg and [Fraction(0)] * n not in rows:
         rows[rng.randrange(m)] = [Fraction(0)] * n
+    if nonneg == 'almost':
+        # nonnegative with a zero row, except for ONE negative entry: the orthogonality-based cover reduction must not fire
+        cand = [(i, j) for i in range(m) for j in range(n) if rows[i][j] > 0]
+        if cand:
+            i, j = rng.choice(cand)
+            r = list(rows[i])
+            r[j] = -r[j]
+            if r not in rows:
+                rows[i] = r
     return rows
 
 
@@ -185,7 +200,7 @@ def build_primal(rng):
     n = rng.randint(1, 3)
     m = rng.randint(1, 6) if rng.random() < 0.95 else 1
     kind = rng.choice(DOMAINS)
-    nonneg = rng.random() < 0.3
+    nonneg = rng.choice([False, False, False, False, True, True, 'almost'])
     alpha = gen_alpha(rng, m, n, nonneg)
     X, Xdesc = make_domain(rng, n, kind)
     cv = cl.Variable(shape=(3,), name='cvar')
@@ -240,7 +255,7 @@ def build_dual(rng):
     n = rng.randint(1, 3)
     m = rng.randint(1, 6) if rng.random() < 0.95 else 1
     kind = rng.choice(DOMAINS)
-    nonneg = rng.random() < 0.3
+    nonneg = rng.choice([False, False, False, False, True, True, 'almost'])
     alpha = gen_alpha(rng, m, n, nonneg)
     X, Xdesc = make_domain(rng, n, kind)
     vv = cl.Variable(shape=(m,), name='v')
